@@ -22,6 +22,7 @@ RULE = (
     "source events consumed; the four refusal classes (several root fields written directly or through fragments, no subscription resolver, "
     "non-subscription operation, runtime without streams) must raise the documented exception with "
     "zero events consumed. "
+    "A source may deliver the same object twice in a row: the resolvers must run again for it. "
     "A fifth of the worlds raise unexpected exceptions on some events (the consumer keeps "
     "reading); a third of the schemas share root types; a repeated root field selects other "
     "things under the same key.  "
@@ -123,7 +124,7 @@ class SubCase(object):
         self.sdl = S.to_sdl(self.ir)[0]
 
 
-async def consume(stream, limit=100):
+async def consume(stream, limit=100, calls=None, marks=None):
     """`async for`, except that an unexpected resolver exception raised for one event is recorded and
     the consumer keeps reading (streams with injected crashes only)."""
     from ..gen.world import Crash
@@ -139,6 +140,8 @@ async def consume(stream, limit=100):
             out.append(("crash", e))
         else:
             out.append(r)
+        if marks is not None:
+            marks.append(len(calls))
     return out
 
 
@@ -204,6 +207,15 @@ def run(ctx):
                 if falsy:
                     payloads = [FalsyEvent(p) if rng.random() < 0.7 else p for p in payloads]
                     ctx.count("streams_with_falsy_events")
+                # a source may hand out the very same object several times in a row (a piece of shared state): each
+                # delivery is an event of its own and is executed again
+                repeated_at = []
+                if n_events >= 2 and rng.random() < 0.3:
+                    j = rng.randrange(1, n_events)
+                    payloads[j] = payloads[j - 1]
+                    events[j] = events[j - 1]
+                    repeated_at.append(j)
+                    ctx.count("streams_with_the_same_object_twice_in_a_row")
                 source = Source(payloads, rng, as_class=rng.random() < 0.5)
                 case.source = source
                 in_thread = rng.random() < 0.3
@@ -236,10 +248,13 @@ def run(ctx):
                 if n_events >= 2 or any(r[0] == "ok" and r[2] for r in refs):
                     ctx.mark_nontrivial([case.sdl, text, variables, n_events, source.as_class])
 
+                marks = []
+                case.binding.calls = []
+
                 async def go():
                     stream = await subscribe(case.schema, parse(text), variables=variables, operation_name="S",
                                              runtime=rt, initial_value=initial)
-                    return await consume(stream)
+                    return await consume(stream, calls=case.binding.calls, marks=marks)
 
                 try:
                     results = loop.run_until_complete(asyncio.wait_for(go(), 60))
@@ -265,6 +280,14 @@ def run(ctx):
                 if source.consumed != n_events or not source.finished:
                     ctx.violation("stream:source-not-exhausted-or-over-consumed", witness,
                                   "consumed=%d finished=%r" % (source.consumed, source.finished))
+                for j in repeated_at:
+                    if refs[j][0] != "ok" or len(marks) != n_events:
+                        continue
+                    per_event = [marks[0]] + [marks[i] - marks[i - 1] for i in range(1, len(marks))]
+                    ctx.count("repeated_events_checked_for_being_executed_again")
+                    if per_event[j] != per_event[j - 1]:
+                        ctx.violation("event:repeated-object-not-executed-again", dict(witness, event_index=j),
+                                      "resolver calls per event: %r (events %d and %d are the same object)" % (per_event, j - 1, j))
                 for k, (res, ref) in enumerate(zip(results, refs)):
                     ctx.count("event_results_checked")
                     w = dict(witness, event_index=k, crashed_events=crashed_events)
